@@ -65,10 +65,7 @@ fn apply_ops(st: &mut St, ops: &[&str]) -> Result<(), String> {
             ["a", id, d] => {
                 let (id, d) = (unhex_u64(id), unhex_bytes(d));
                 let empty = d.is_empty();
-                let r = match st {
-                    St::S(p) => p.add_tile(id, d),
-                    St::A(p) => p.add_tile(id, d),
-                };
+                let r = add_any(st, id, d);
                 if r.is_err() != empty {
                     return Err(format!("add_tile({id}) returned {r:?}"));
                 }
